@@ -252,6 +252,19 @@ def c11_numerals(r, seed, tier, model_ok):
             t_ = R.choice(["", ".", "-", "1.2.3", "1 .5", "1._5", ip + "." + fp + "z", "0x", "0x.8", "z" + ip, ip + " " + fp, "--1", "1e3"])
             bb = R.choice([b, b, 1, 37, -2, 40]); fn = R.choice(["ㅈㅅ", "ㅅㅅ"])
             cases.append(dict(text=f"{strlit(t_)} {E(bb)} {fn}ㅎㄷ", trace=False)); want.append(None); kinds["malformed-or-refused"] += 1
+    # complex numbers as text (ㅂㅅ of a string: the text with every "i" written "j" goes to complex()): real [+/- imaginary i], the bare unit,
+    # brackets and blanks, exponents, long digit strings, overflow, malformed texts; the two parts taken out exactly by calling the number with 0 / 1
+    def real_text():
+        k = R.random(); x = R.choice([1, -1]) * R.randrange(0, 10**R.choice([1, 3, 17, 25])) * 10.0 ** R.randrange(-30, 30)
+        return repr(x) if k < .4 else f"{x:.{R.randrange(0, 20)}e}" if k < .6 else str(int(x)) if k < .8 and abs(x) < 1e30 else R.choice(["nan", "Inf", "-INF", "1e400", ".5", "5.", "1e", "0", "-0"])
+    for _ in range(N(tier, 300, 5000)):
+        k = R.random(); a_, b_ = real_text(), real_text().lstrip("-")
+        t_ = a_ if k < .15 else b_ + "i" if k < .3 else a_ + R.choice("+-") + b_ + "i" if k < .7 else a_ + R.choice(["+i", "-i"]) if k < .78 else R.choice(["i", "-i", "+i"]) if k < .82 else \
+             R.choice([a_ + "+" + b_, a_ + " + " + b_ + "i", a_ + "+-" + b_ + "i", b_ + "ii", "i" + b_, a_ + "+" + b_ + "I", a_ + "+" + b_ + "j", a_ + "+" + b_ + "J", "", "()", a_ + "i+" + b_])
+        if R.random() < .25: t_ = R.choice(["(", " (", "( "]) + t_ + R.choice([")", " )", ") ", ""])
+        if R.random() < .15: t_ = " " + t_ + "\n"
+        z = f"({strlit(t_)} ㅂㅅㅎㄴ)"; c = R.random()
+        cases.append(dict(text=z if c < .4 else f"{E(0)} {z} ㅎㄴ" if c < .7 else f"{E(1)} {z} ㅎㄴ", trace=False)); want.append(None); kinds["complex-text"] += 1
     a = impl_run(cases)
     bad = [dict(program=c["text"][:300], impl=res(o).split(" @")[0][:100], model="exact: " + w, which=["numeral"]) for c, o, w in zip(cases, a, want) if w is not None and res(o).split(" @")[0] != w]
     r.slice("numerals_exact", len(cases), len({c["text"] for c in cases}), [cases[0]["text"][:200]], dict(kinds), "numerals of bases 2..36 (long fractions, prefixes, trailing zeros) read by ㅈㅅ / ㅅㅅ vs exact rational arithmetic rounded once", bad[:40])
